@@ -164,6 +164,51 @@ func C05(c *Ctx) {
 
 	c.c05Iterate()
 	c.c05Warn()
+	c.visibilityRules("C05-7")
+
+	r.Rule("C05-8", "the flag that suppresses the `no match` verdict in the default matcher (a captured bool set by the candidate handler) is only ever set to the constant true, and only when both the destination field and the candidate are struct-typed (member-wise descent was attempted)")
+	nf := 0
+	for _, dm := range c.defaultMatchers() {
+		seen := map[*ssa.Function]bool{}
+		for _, s := range append(c.CallsIn(dm, fnIterMethods, false), c.CallsIn(dm, fnIterFields, false)...) {
+			mc, ok := s.Args()[1].(*ssa.MakeClosure)
+			if !ok || seen[mc.Fn.(*ssa.Function)] {
+				continue
+			}
+			h := mc.Fn.(*ssa.Function)
+			seen[h] = true
+			cand := "param:" + h.Params[0].Name()
+			for _, b := range h.Blocks {
+				for _, in := range b.Instrs {
+					st, ok := in.(*ssa.Store)
+					if !ok {
+						continue
+					}
+					fv, ok := st.Addr.(*ssa.FreeVar)
+					if !ok {
+						continue
+					}
+					if bt, ok := fv.Type().Underlying().(*types.Pointer).Elem().Underlying().(*types.Basic); !ok || bt.Kind() != types.Bool {
+						continue
+					}
+					nf++
+					d := c.ReachOf(st)
+					v := c.O.Of(st.Val)
+					structOf := func(who func(*core.Term) bool) core.LitMatcher {
+						return c.M(true, func(t *core.Term) bool {
+							return t.IsCallTo(fnIsStruct) && t.Args[0].IsCallTo(invExprType) && who(t.Args[0].Args[0])
+						})
+					}
+					isCand := func(t *core.Term) bool { return t.String() == cand }
+					isDst := func(t *core.Term) bool { return t.Kind == "fv" }
+					ok2 := v.Is("const", "true") && d.Implies(structOf(isCand)) && d.Implies(structOf(isDst))
+					r.Check("C05-8", FnKey(h)+":flag:"+fv.Name(), c.InstrPos(st), ok2,
+						"the no-match-suppressing flag "+fv.Name()+" can be set ("+v.String()+") without both sides being structs: the destination field would then get neither an assignment nor a `no match` line nor a warning; reach: "+d.Describe(c.O))
+				}
+			}
+		}
+	}
+	r.Floor("C05-8", "stores to captured bool flags in candidate handlers", nf, 1)
 }
 
 func isErrTyped(a, b *core.Term) bool {
